@@ -197,6 +197,12 @@ func (its *WiredDatatype) updateStateOfDatatype(
 
 		its.state = model.StateOfDatatype_SUBSCRIBED
 		its.id = ppp.DUID
+		// The rollback point was taken before the datatype got the server's DUID (and, when
+		// SubscribeOrCreate turned into a subscription, its fresh operation ID). Take it again, or a
+		// failed transaction would bring the old identifiers back.
+		if rErr := its.ResetTransaction(); rErr != nil {
+			return oldState, its.state, rErr
+		}
 
 		err = its.wire.OnChangeDatatypeState(its.Datatype, its.state)
 	case model.StateOfDatatype_SUBSCRIBED:
